@@ -71,10 +71,16 @@ def generate(seed: int, tier: str, phase: str) -> Dict[str, Any]:
         plan["ops"] = [{"op": "run", "mode": "bwd_subset", "k": 1, "gseed": 1, "mask": [True, False, False]}]
         return plan
     if phase == "analyse":
+        if r.random() < 0.5:
+            # history: a different program was analysed earlier in this process (anything the
+            # library keeps between analyses is shared state)
+            ops.append({"op": "other", "oseed": r.randrange(1 << 30), "n": r.choice([1, 2])})
         for _ in range(r.choice([1, 2])):
-            ops.append({"op": "analyse", "k": r.randrange(3), "gseed": r.randrange(4)})
+            ops.append({"op": "analyse", "k": r.randrange(3), "gseed": r.randrange(4), "recurse": r.random() < 0.75})
         plan["ops"] = ops
         return plan
+    if r.random() < 0.4:
+        ops.append({"op": "other", "oseed": r.randrange(1 << 30), "n": r.choice([1, 2])})
     kinds = ["bwd", "bwd", "fwd", "bwd_subset", "reset"]  # no torch.no_grad() runs: a grad-mode switch compiles a second graph (see ASSUMPTIONS)
     for _ in range(r.choice([2, 3, 4, 5, 6])):
         k = r.choice(kinds)
@@ -231,6 +237,7 @@ def execute(plan: Dict[str, Any]) -> Dict[str, Any]:
 
 def _track(plan: Dict[str, Any], spec: Dict[str, Any], original: Any, inputs: Any, res: Dict[str, Any], log: Any,
            probe: Any, faults: Dict[str, Any], states: List[str], sig: str) -> None:
+    from models import programs as _programs
     import torch
     import torch._dynamo
     from torch import fx
@@ -307,6 +314,10 @@ def _track(plan: Dict[str, Any], spec: Dict[str, Any], original: Any, inputs: An
             d["fired"] += 1
             res["opseq"].append("reset")
             continue
+        if op["op"] == "other":
+            _run_others(plan, op, probe, analyse=False)
+            res["opseq"].append("other")
+            continue
         mode = op["mode"]
         bwd = mode not in ("fwd", "nograd")
         ng = mode == "nograd"
@@ -325,9 +336,16 @@ def _track(plan: Dict[str, Any], spec: Dict[str, Any], original: Any, inputs: An
         d = tw.diff(got, want)
         if d:
             tol = plan.get("rounding_tol")
-            if tw.diff({"outs": got["outs"]}, {"outs": want["outs"]}, tol or 1e-5):
+            vals = tw.diff({"outs": got["outs"]}, {"outs": want["outs"]}, tol or 1e-5)
+            grs = None if vals else (not tw.grads_close_globally(got, want, tol or 1e-5))
+            if (vals or grs) and tw.within_rounding_band(
+                    got, want, lambda j: _programs.Reference(spec, jitter=j), original, inputs[op["k"]], op["gseed"],
+                    bwd, no_grad=ng, out_mask=mask):
+                # the program itself amplifies rounding noise: still only a last-bits difference
+                vals = grs = None
+            if vals:
                 raise Violation("observational", "values_changed", f"{d} {where}")
-            if not tw.grads_close_globally(got, want, tol or 1e-5):
+            if grs:
                 raise Violation("observational", "gradients_changed", f"{d} {where}")
             if tol is None:
                 # float-rounding-level difference: reported at the end of the run unless
@@ -421,6 +439,46 @@ def _track(plan: Dict[str, Any], spec: Dict[str, Any], original: Any, inputs: An
 _PAIR = re.compile(r"^\s*(?:def forward\(.*\):|(\w+) = .*?);?\s+\(-> ([^,]+), <- ([^)]+)\)\s*$")
 
 
+def _run_others(plan: Dict[str, Any], op: Dict[str, Any], probe: Any, analyse: bool) -> None:
+    """History: other programs go through the same library entry point earlier in this process.
+    Their results are not judged here (each is some other run's main program)."""
+    import random
+
+    import torch
+
+    from engines import tworld as tw
+    from models import proggen, programs
+
+    for j in range(op.get("n", 1)):
+        try:
+            ospec = proggen.generate(random.Random(op["oseed"] + j), plan["opts"])
+            omod = programs.ProgModule(ospec)
+            oin = programs.make_inputs(ospec, 70 + j)
+            if analyse:
+                from unit_scaling.utils import analyse_module
+
+                one = copy.deepcopy(ospec)
+                one["outputs"] = ospec["outputs"][:1]
+                n_in = len(one["inputs"])
+                src = "def forward(self, " + ", ".join(f"a{i}" for i in range(n_in)) + "):\n    return _base(self, " + \
+                    ", ".join(f"a{i}" for i in range(n_in)) + ")\n"
+                ns: Dict[str, Any] = {"_base": programs.ProgModule.forward}
+                exec(src, ns)
+                Fixed = type("FixedProg", (programs.ProgModule,), {"forward": ns["forward"]})
+                fm = Fixed(one)
+                out0 = tw.run(fm, fm, tw.clone_inputs(oin), 0, backward=False)["outs"][0]
+                if isinstance(out0, torch.Tensor) and out0.is_floating_point():
+                    analyse_module(fm, tuple(tw.clone_inputs(oin)), torch.ones_like(out0), syntax_highlight=False)
+            else:
+                from unit_scaling.transforms import track_scales
+
+                tm = track_scales(omod)
+                tw.run(tm, tm, tw.clone_inputs(oin), 0, backward=True)
+            probe("other_programs_earlier_in_process")
+        except Exception:
+            probe("other_program_failed")
+
+
 def _analyse(plan: Dict[str, Any], spec: Dict[str, Any], original: Any, inputs: Any, res: Dict[str, Any], log: Any,
              probe: Any, states: List[str], sig: str) -> None:
     import torch
@@ -446,6 +504,9 @@ def _analyse(plan: Dict[str, Any], spec: Dict[str, Any], original: Any, inputs: 
     states.append("analyse")
     for op in plan["ops"]:
         where = f"analyse_module program {sig}"
+        if op["op"] == "other":
+            _run_others(plan, op, probe, analyse=True)
+            continue
         xin = tw.clone_inputs(inputs[op["k"]])
         before = tw.run(mod, mod, tw.clone_inputs(inputs[op["k"]]), op["gseed"])
         out0 = before["outs"][0]
@@ -453,7 +514,8 @@ def _analyse(plan: Dict[str, Any], spec: Dict[str, Any], original: Any, inputs: 
             return
         up = torch.randn(out0.shape, generator=torch.Generator().manual_seed(op["gseed"] + 11))
         try:
-            text = analyse_module(mod, tuple(xin), up, syntax_highlight=False)
+            text = analyse_module(mod, tuple(xin), up, recurse_modules=bool(op.get("recurse", True)),
+                                  syntax_highlight=False)
         except Exception as e:
             res["notes"].append("analyse_module: program not fx-traceable (" + type(e).__name__ + ")")
             return
@@ -470,7 +532,7 @@ def _analyse(plan: Dict[str, Any], spec: Dict[str, Any], original: Any, inputs: 
             for p in mod.parameters():
                 p.grad = None
         # independent capture of the same fx graph
-        tracer = _DeepTracer()
+        tracer = _DeepTracer(recurse_modules=bool(op.get("recurse", True)))
         graph = tracer.trace(mod)
         gm = fx.GraphModule(tracer.root, graph)
         cap = Capture(gm)
@@ -484,6 +546,23 @@ def _analyse(plan: Dict[str, Any], spec: Dict[str, Any], original: Any, inputs: 
             if mt:
                 printed[mt.group(1)] = (mt.group(2).strip(), mt.group(3).strip())
         ncmp = 0
+        # the `def forward(...)` line carries one annotation per float placeholder
+        head = next((ln for ln in text.splitlines() if ln.lstrip().startswith("def forward")), "")
+        head_pairs = re.findall(r"\(-> ([^,()]+), <- ([^()]+)\)", head)
+        float_ph = [n.name for n in graph.nodes if n.op == "placeholder" and n.name in cap.fwd]
+        if len(head_pairs) > len(float_ph):
+            raise Violation("metrics", "annotation_on_non_float_value",
+                            f"{len(head_pairs)} placeholder annotations for {len(float_ph)} float inputs {where}")
+        if len(head_pairs) == len(float_ph):
+            for name, (f_s, _b) in zip(float_ph, head_pairs):
+                if f_s.strip() != "n/a":
+                    v = float(f_s)
+                    rr = cap.fwd[name]
+                    if not (any(_close(v, x_, 6e-3) for x_ in (rr["std_unbiased"], rr["std_biased"]))
+                            or (math.isnan(v) and math.isnan(rr["std_unbiased"]))):
+                        raise Violation("metrics", "analyse_forward_std_wrong",
+                                        f"input {name}: printed {f_s}, recomputed {rr['std_unbiased']!r} {where}")
+                    ncmp += 1
         # the reference comes from a second execution: a gradient that is pure cancellation noise
         # (orders of magnitude below the others) is not reproducible to 3 digits between two
         # executions whose autograd graphs differ by the tracking nodes
